@@ -83,11 +83,26 @@ CLAIMED = {
             "that beat'; real hittable() answers and time_notes outputs (order, type, untouched fields, times) for model, random and "
             "corpus timing data with generated routine/keysounded note data are decided by TLC.",
             "note beats on the 1/768-beat grid; times via linear forms (exact on the smooth sub-domain)."),
+    "C05": ("library", "6/C05",
+            "TLC explores the mutate protocol (one action per step of the code: name check, one decode attempt per tried encoding, "
+            "body, render, open/write/close per file) over an abstract filesystem for every content class x name configuration x tried "
+            "list x edit script, with detection, saved-content, backup, untouched-files and name-clash clauses as invariants in every "
+            "state; terminal states are replayed on native and in-memory filesystems; generated scenarios run against a recording proxy "
+            "filesystem whose per-call snapshots are validated by TLC, including the no-op second mutate.",
+            "Python codecs decide 'decodes' (the model's decodability table is computed from the concrete contents); loader/serializer judged by C01-C04."),
+    "C06": ("library", "6/C06",
+            "The same protocol model with body outcomes (Exception, KeyboardInterrupt, SystemExit, CancelMutation at every position), "
+            "unserializable / unencodable simfiles and a fault at the k-th filesystem call: TLC checks I1-I4 in every state and must find "
+            "the I2 counterexample for the pre-repair protocol (non-vacuity); failure scenarios are replayed for real; per base scenario "
+            "every fault point of the fault-free run is enumerated against the fault-injecting proxy and each observed state is validated by TLC.",
+            "fault_enumeration-strength evidence inside a model_checking claim; a fault is an OSError raised before the call takes effect."),
 }
 
 PENDING = {}
 
 ENGINES = [
+    ("library", "spec/library", ["C05", "C06"],
+     "Library.tla + MC_Library (mutate protocol with faults, two save protocols; TLC BFS) + Trace_Library (per-call filesystem snapshots) + harness/fsproxy.py (recording, fault-injecting PyFilesystem)"),
     ("timing", "spec/timing", ["C11", "C12", "C13"],
      "Timing.tla (declarative timeline as linear forms, operational tagged-event engine, beat_at relation, hittability) + MC_Timing (TLC BFS over timing data) + Trace_Timing"),
     ("grouping", "spec/grouping", ["C09", "C10"],
